@@ -80,8 +80,9 @@ Fixpoint read_moves (toks : list (list N)) (acc : list op) : res (list op) :=
     | [] => Panic                                                        (* cannot happen: tokens are non-empty *)
     | c0 :: _ =>
       if c0 =? B "{" then
-        (* tok[1 : len(tok)-1] *)
-        if (length tok <? 2)%nat then Panic else read_moves rest (OComment (firstn (length tok - 2) (tl tok)) :: acc)
+        (* repaired: len(tok) < 2 || tok[len(tok)-1] != '}' -> error "unterminated comment"; then tok[1 : len(tok)-1] *)
+        if (length tok <? 2)%nat || negb (last tok 0 =? B "}") then Err
+        else read_moves rest (OComment (firstn (length tok - 2) (tl tok)) :: acc)
       else if last tok 0 =? B "." then
         match atoi (removelast tok) with Some n => read_moves rest (OMoveNumber n :: acc) | None => Err end
       else if is_result tok then read_moves rest (OResult tok :: acc)
@@ -122,7 +123,7 @@ Definition render (g : ptn) : list N :=
 (* ---- InitialPosition, Iterator, PositionAtMove ---- *)
 Section It.
 Variable basis : list N.
-Definition pmove := move_prealloc (hash_sq basis) false.
+Definition pmove := move_prealloc (hash_sq basis) true.     (* the repaired MovePreallocated (origin bounds check) *)
 
 Fixpoint find_tag (name : list N) (ts : list (list N * list N)) : list N :=
   match ts with [] => [] | (n, v) :: r => if bytes_eqb n name then v else find_tag name r end.
@@ -140,6 +141,7 @@ Definition initial_position (g : ptn) : res position :=
   match atoi (find_tag tag_size (tags g)) with
   | None => Err
   | Some sz =>
+    if ((sz <? 3) || (8 <? sz))%Z then Err else                  (* repaired: "bad size" instead of the panic in tak.New *)
     match find_tag tag_tps (tags g) with
     | [] => tak_new sz
     | tps => match parse_tps basis tps with
@@ -153,7 +155,14 @@ Definition to_rmove (m : PtnMove.move) : rmove := {| Move.mX := PtnMove.mX m; Mo
 
 Record iter := { it_ops : list op; it_pos : position; it_marker : Z; it_pending : option PtnMove.move; it_over : bool; it_err : bool }.
 
-(* advance to the next Move op, updating the marker *)
+Definition set_err (it : iter) : iter :=
+  {| it_ops := it_ops it; it_pos := it_pos it; it_marker := it_marker it; it_pending := it_pending it; it_over := it_over it; it_err := true |}.
+Definition set_over (it : iter) : iter :=
+  {| it_ops := it_ops it; it_pos := it_pos it; it_marker := it_marker it; it_pending := it_pending it; it_over := true; it_err := it_err it |}.
+Definition applied (it : iter) (q : position) : iter :=          (* i.position = next; i.move = Move{} *)
+  {| it_ops := it_ops it; it_pos := q; it_marker := it_marker it; it_pending := None; it_over := it_over it; it_err := it_err it |}.
+
+(* the scanning loop of Next: advance to the next Move op, updating the marker *)
 Fixpoint scan (os : list op) (marker : Z) : list op * Z * option PtnMove.move :=
   match os with
   | [] => ([], marker, None)
@@ -162,70 +171,103 @@ Fixpoint scan (os : list op) (marker : Z) : list op * Z * option PtnMove.move :=
   | _ :: r => scan r marker
   end.
 
-Definition next (it : iter) : res (bool * iter) :=
-  if it_err it || it_over it then Ok (false, it) else
-  let after_apply : res (option iter) :=                      (* None = stop with `true` because the game is over; Some = continue scanning *)
-    match it_pending it with
-    | None => Ok (Some it)
-    | Some m =>
-      match pmove (it_pos it) (to_rmove m) with
-      | Ok q =>
-        let it' := {| it_ops := it_ops it; it_pos := q; it_marker := it_marker it; it_pending := None; it_over := false; it_err := false |} in
-        match game_over q with
-        | Some (true, _) => Ok None
-        | Some (false, _) => Ok (Some it')
-        | None => Panic
-        end
-      | Err => Err
-      | Panic => Panic
+(* the first half of Next: `if i.move.Type != 0 { if !i.apply() { return false }; if over { i.over = true; return true } }` *)
+Inductive step := Stop (ret : bool) (it : iter) | Continue (it : iter).
+Definition apply_pending (it : iter) : res step :=
+  match it_pending it with
+  | None => Ok (Continue it)
+  | Some m =>
+    match pmove (it_pos it) (to_rmove m) with
+    | Err => Ok (Stop false (set_err it))                          (* i.err = e; position and pending move stay *)
+    | Panic => Panic
+    | Ok q =>
+      match game_over q with
+      | None => Panic                                              (* flood fuel; proved unreachable on 64-bit boards *)
+      | Some (true, _) => Ok (Stop true (set_over (applied it q)))
+      | Some (false, _) => Ok (Continue (applied it q))
       end
-    end in
-  match after_apply with
-  | Err => Ok (false, {| it_ops := it_ops it; it_pos := it_pos it; it_marker := it_marker it; it_pending := it_pending it; it_over := false; it_err := true |})
-  | Panic => Panic
-  | Ok None =>
-    (match it_pending it with
-     | Some m => match pmove (it_pos it) (to_rmove m) with
-                 | Ok q => Ok (true, {| it_ops := it_ops it; it_pos := q; it_marker := it_marker it; it_pending := None; it_over := true; it_err := false |})
-                 | _ => Panic end
-     | None => Panic end)
-  | Ok (Some it1) =>
-    let '(rest, marker, pend) := scan (it_ops it1) (it_marker it1) in
-    match pend with
-    | Some m => Ok (true, {| it_ops := rest; it_pos := it_pos it1; it_marker := marker; it_pending := Some m; it_over := false; it_err := false |})
-    | None => Ok (true, {| it_ops := rest; it_pos := it_pos it1; it_marker := marker; it_pending := None; it_over := true; it_err := false |})
     end
   end.
 
+Definition next (it : iter) : res (bool * iter) :=
+  if it_err it || it_over it then Ok (false, it) else
+  match apply_pending it with
+  | Err => Err | Panic => Panic
+  | Ok (Stop b it') => Ok (b, it')
+  | Ok (Continue it1) =>
+    let '(rest, marker, pend) := scan (it_ops it1) (it_marker it1) in
+    match pend with
+    | Some m => Ok (true, {| it_ops := rest; it_pos := it_pos it1; it_marker := marker; it_pending := Some m; it_over := false; it_err := false |})
+    | None =>   (* i.over = true; the trailing `if i.move.Type != 0` never fires: the pending move was consumed above *)
+      Ok (true, {| it_ops := rest; it_pos := it_pos it1; it_marker := marker; it_pending := None; it_over := true; it_err := false |})
+    end
+  end.
+
+Definition iterator (g : ptn) (p0 : position) : iter :=
+  {| it_ops := ops g; it_pos := p0; it_marker := 0; it_pending := None; it_over := false; it_err := false |}.
+
 (* PositionAtMove(move, color); color: Some true = white, Some false = black, None = NoColor *)
+Definition hit (mv marker : Z) (white : bool) (p : position) : bool :=
+  ((0 <? mv) && (mv =? marker))%Z && Bool.eqb (to_move_white p) white.
 Fixpoint pam_loop (fuel : nat) (it : iter) (mv : Z) (white : bool) : res (position + iter) :=
   match fuel with O => Panic | S f =>
     match next it with
-    | Ok (true, it') =>
-      if ((0 <? mv) && (mv =? it_marker it'))%Z && Bool.eqb (to_move_white (it_pos it')) white then Ok (inl (it_pos it'))
-      else pam_loop f it' mv white
+    | Ok (true, it') => if hit mv (it_marker it') white (it_pos it') then Ok (inl (it_pos it')) else pam_loop f it' mv white
     | Ok (false, it') => Ok (inr it')
     | Err => Err | Panic => Panic
     end
   end.
 
 Definition position_at_move (g : ptn) (mv : Z) (color : option bool) : res position :=
-  match color with
-  | None => if negb (mv =? 0)%Z then Err else
-    match initial_position g with
-    | Ok p0 => match pam_loop (S (S (length (ops g)))) {| it_ops := ops g; it_pos := p0; it_marker := 0; it_pending := None; it_over := false; it_err := false |} mv true with
-               | Ok (inl p) => Ok p
-               | Ok (inr it) => if it_err it then Err else if (0 <? mv)%Z then Err else Ok (it_pos it)
-               | Err => Err | Panic => Panic end
+  if (match color with None => negb (mv =? 0)%Z | Some _ => false end) then Err else      (* NoColor with move != 0 *)
+  let white := match color with Some w => w | None => true end in                          (* irrelevant when mv = 0 *)
+  match initial_position g with
+  | Ok p0 => match pam_loop (S (S (length (ops g)))) (iterator g p0) mv white with
+             | Ok (inl p) => Ok p
+             | Ok (inr it) => if it_err it then Err else if (0 <? mv)%Z then Err else Ok (it_pos it)
+             | Err => Err | Panic => Panic end
+  | Err => Err | Panic => Panic                                        (* Iterator() stores the error; Next is false at once *)
+  end.
+
+(* for it.Next() {}: number of successful Next calls, final iterator *)
+Fixpoint replay_loop (fuel : nat) (it : iter) (count : nat) : res (nat * iter) :=
+  match fuel with O => Panic | S f =>
+    match next it with
+    | Ok (true, it') => replay_loop f it' (S count)
+    | Ok (false, it') => Ok (count, it')
     | Err => Err | Panic => Panic
     end
-  | Some white =>
-    match initial_position g with
-    | Ok p0 => match pam_loop (S (S (length (ops g)))) {| it_ops := ops g; it_pos := p0; it_marker := 0; it_pending := None; it_over := false; it_err := false |} mv white with
-               | Ok (inl p) => Ok p
-               | Ok (inr it) => if it_err it then Err else if (0 <? mv)%Z then Err else Ok (it_pos it)
-               | Err => Err | Panic => Panic end
+  end.
+Definition replay_all (g : ptn) (p0 : position) : res (nat * iter) := replay_loop (S (S (length (ops g)))) (iterator g p0) 0.
+
+(* ---- the specification walk of PositionAtMove (written from the property text, not from the iterator) ----
+   Walk the record keeping the last move-number marker.  Before every recorded move it is the turn of the side to move of the
+   current position "under marker n"; the answer to (n, c) with n > 0 is the first such turn point with marker n and side c.  A move
+   is then applied (an illegal move is an error); when the game is over after it, the resulting position is the last turn point (under
+   the same marker) and the walk stops.  At the end of the record the position reached is the last turn point, under the last
+   marker read.  n <= 0 asks for the position at which the walk stops. *)
+Definition finish (mv marker : Z) (white : bool) (p : position) : res position :=
+  if hit mv marker white p then Ok p else if (0 <? mv)%Z then Err else Ok p.
+Fixpoint spec_walk (os : list op) (p : position) (marker : Z) (mv : Z) (white : bool) : res position :=
+  match os with
+  | [] => finish mv marker white p
+  | OMoveNumber n :: r => spec_walk r p n mv white
+  | OMove m _ :: r =>
+    if hit mv marker white p then Ok p else
+    match pmove p (to_rmove m) with
+    | Ok q => match game_over q with
+              | Some (true, _) => finish mv marker white q
+              | Some (false, _) => spec_walk r q marker mv white
+              | None => Panic end
     | Err => Err | Panic => Panic
     end
+  | _ :: r => spec_walk r p marker mv white
+  end.
+Definition spec_position_at (g : ptn) (mv : Z) (color : option bool) : res position :=
+  match color, (mv =? 0)%Z with
+  | None, false => Err
+  | _, _ => match initial_position g with
+            | Ok p0 => spec_walk (ops g) p0 0 mv (match color with Some w => w | None => true end)
+            | Err => Err | Panic => Panic end
   end.
 End It.
